@@ -12,7 +12,7 @@ for d in sorted(glob.glob("/verif/seeded/*")):
         continue
     m = json.load(open(mp))
     tag = os.path.basename(d)
-    for base in ("/tmp/seeded-old", "/tmp/seeded-old2"):
+    for base in ("/tmp/seeded-old", "/tmp/seeded-old2", "/tmp/seeded-old3"):
         bp = os.path.join(base, tag, "meta.json")
         if os.path.exists(bp):
             b = json.load(open(bp))
